@@ -280,10 +280,11 @@ theorem plan_ok_of (fs : FS) (cwd : String) (a : Args) (inp : String) (dirs : Li
     (hcwd : normAbs cwd = true) (hinp : absPath cwd a.input = some inp) (hex : fs.exists inp = true)
     (hnd : fs.isDir inp = false) (hdirs : absDirs fs cwd a.includeDirs = .ok dirs)
     (hoff : parseOffset a.hexOffset = .ok off)
-    (hasm : assembleText fs cwd (dirs ++ a.definitionsDir.toList) a.compress (.path inp) = .ok r) :
+    (hasm : assembleText fs cwd (dirs ++ a.definitionsDir.toList) a.compress (.path inp) = .ok r)
+    (hfit : offsetFits off r.bytes.length = true) :
     plan fs cwd a = .ok (off, r) := by
   unfold plan
-  simp [hcwd, hinp, hex, hnd, hdirs, hoff, hasm]
+  simp [hcwd, hinp, hex, hnd, hdirs, hoff, hasm, hfit]
 
 theorem absDirs_error_ne0 (fs : FS) (cwd : String) (l : List String) (e : ExitStatus)
     (h : absDirs fs cwd l = .error e) : e ≠ .code 0 := by
@@ -446,7 +447,7 @@ def exArgs (hex : Option String) : Args :=
 theorem ex_plan : plan exFS "/w" (exArgs (some "0x08000000")) = .ok (some 134217728, ⟨[], [], []⟩) :=
   plan_ok_of exFS "/w" _ "/w/m.asm" [] (some 134217728) ⟨[], [], []⟩ ex_abs_w
     (by simp [absPath, exArgs, ex_abs_main]) (by decide) (by decide) (by rfl) (by decide)
-    (by simpa [exArgs] using ex_assembles)
+    (by simpa [exArgs] using ex_assembles) (by decide)
 
 /-- … so `cli_success_files` applies (its hypotheses are satisfiable): exit 0, the three files hold
     the binary, the label lines and what bin2hex produced -/
@@ -492,45 +493,57 @@ example : parseOffset (some "1.5") = .error (.code 1) := by decide
 example : parseOffset (some "0x") = .error (.code 1) := by decide
 example : parseOffset (some "") = .ok none := by decide
 
-/-- the unrestricted failure clause is FALSE for an encoder that, like intelhex, raises on offsets
-    beyond 2^32 after the binary was written: the example run exits 1 and has changed the files -/
-theorem failure_clause_needs_hex_range :
-    ¬ CliFailureUntouched (fun off bs => if off + bs.length ≤ 4294967296 then .ok [] else .error []) := by
-  intro h
-  have hplan : plan exFS "/w" (exArgs (some "0x100000001")) = .ok (some 4294967297, ⟨[], [], []⟩) :=
-    plan_ok_of exFS "/w" _ "/w/m.asm" [] (some 4294967297) ⟨[], [], []⟩ ex_abs_w
-      (by simp [absPath, exArgs, ex_abs_main]) (by decide) (by decide) (by rfl) (by decide)
-      (by simpa [exArgs] using ex_assembles)
-  have hcw : ∀ q, pathDirname q = "/w" → exFS.isDir q = false → FS.canWrite exFS q = true := by
-    intro q h1 h2; simp [FS.canWrite, h1, h2]; decide
-  have hout : absPath "/w" (exArgs (some "0x100000001")).output = some "/w/out.bin" := by
-    simp [absPath, exArgs, ex_abs_out]
-  have hlabp : absPath "/w" "/w/l.txt" = some "/w/l.txt" := by simp [absPath, ex_abs_lab]
-  obtain ⟨fs1, _, _, _, hw⟩ := writeOutputs_eq_finish
-    (fun off bs => if off + bs.length ≤ 4294967296 then .ok [] else .error []) exFS "/w"
-    (exArgs (some "0x100000001")) (some 4294967297) ⟨[], [], []⟩ "/w/out.bin" hout
-    (hcw _ ex_dirname_out (by decide))
-    (by
-      intro l hl
-      have : l = "/w/l.txt" := by simp [wantLabels, exArgs] at hl; exact hl.symm
-      subst this
-      exact ⟨"/w/l.txt", [], hlabp, rfl, hcw _ ex_dirname_lab (by decide), by decide, by decide⟩)
-    (fun o _ => hcw _ ex_dirname_hex (by decide))
-  have hrun := h exFS "/w" (exArgs (some "0x100000001"))
-  unfold run at hrun
-  rw [hplan] at hrun
-  simp only at hrun
-  rw [hw] at hrun
-  have hf : finish (fun off bs => if off + bs.length ≤ 4294967296 then .ok [] else .error []) fs1 "/w/out.bin"
-      (some 4294967297) ⟨[], [], []⟩ =
-      (.code 1, FS.write (FS.write fs1 "/w/out.bin" []) ("/w/out.bin" ++ ".hex") []) := by
-    unfold finish
-    simp
-  rw [hf] at hrun
-  have := hrun (by simp [ExitStatus.failed])
-  have h2 := congrArg (fun f => FS.readBytes f "/w/out.bin") this
-  simp only at h2
-  rw [read_write_other _ _ _ _ (by decide), read_write_same] at h2
-  exact absurd h2 (by decide)
+/-- step 4b (fix 9cf2d5e): a run that gets as far as writing has an offset Intel HEX can hold -/
+theorem plan_offset_in_range (fs : FS) (cwd : String) (a : Args) (off : Int) (r : AsmResult)
+    (h : plan fs cwd a = .ok (some off, r)) : 0 ≤ off ∧ off + r.bytes.length ≤ 4294967296 := by
+  unfold plan at h
+  dsimp only at h
+  repeat' split at h
+  all_goals first
+    | (cases h; done)
+    | (simp only [Except.ok.injEq, Prod.mk.injEq] at h
+       obtain ⟨h1, h2⟩ := h
+       subst h1 h2
+       rename_i hfit
+       simp [offsetFits] at hfit
+       exact hfit)
+
+/-- an offset that parses but that Intel HEX cannot hold ends the run after assembling and before
+    any write, with status 1 -/
+theorem out_of_range_offset_exits (henc : HexEnc) (fs : FS) (cwd : String) (a : Args) (inp : String)
+    (dirs : List String) (off : Int) (r : AsmResult)
+    (hcwd : normAbs cwd = true) (hinp : absPath cwd a.input = some inp) (hex : fs.exists inp = true)
+    (hnd : fs.isDir inp = false) (hdirs : absDirs fs cwd a.includeDirs = .ok dirs)
+    (hoff : parseOffset a.hexOffset = .ok (some off))
+    (hasm : assembleText fs cwd (dirs ++ a.definitionsDir.toList) a.compress (.path inp) = .ok r)
+    (hbad : off < 0 ∨ 4294967296 < off + r.bytes.length) :
+    run henc fs cwd a = (.code 1, fs) := by
+  have hfit : offsetFits (some off) r.bytes.length = false := by
+    simp only [offsetFits, Bool.and_eq_false_iff, decide_eq_false_iff_not]
+    rcases hbad with h | h
+    · left; omega
+    · right; omega
+  have hp : plan fs cwd a = .error (.code 1) := by
+    unfold plan
+    simp [hcwd, hinp, hex, hnd, hdirs, hoff, hasm, hfit]
+  exact plan_error_untouched henc fs cwd a _ hp
+
+/-- **C17, failure clause, with no side condition on the offset**: whenever the exit status is not 0
+    the filesystem is unchanged — under the stated assumption on bin2hex (`HexOk`: it does not raise
+    for images Intel HEX can hold) and for outputs that are byte strings -/
+theorem cli_failure_untouched_range (henc : HexEnc) (hok : HexOk henc) (fs : FS) (cwd : String) (a : Args)
+    (hbytes : ∀ off r, plan fs cwd a = .ok (off, r) → ∀ b ∈ r.bytes, b < 256)
+    (h : (run henc fs cwd a).1.failed) : (run henc fs cwd a).2 = fs := by
+  apply cli_failure_untouched' henc hok fs cwd a _ h
+  intro off r hp
+  obtain ⟨h0, h1⟩ := plan_offset_in_range fs cwd a off r hp
+  exact ⟨hbytes _ _ hp, h0, h1⟩
+
+/-- the former counterexample (offset 0x100000001, encoder raising beyond 2^32) now ends with status 1
+    and an untouched filesystem -/
+example (henc : HexEnc) : run henc exFS "/w" (exArgs (some "0x100000001")) = (.code 1, exFS) :=
+  out_of_range_offset_exits henc exFS "/w" _ "/w/m.asm" [] 4294967297 ⟨[], [], []⟩ ex_abs_w
+    (by simp [absPath, exArgs, ex_abs_main]) (by decide) (by decide) (by rfl) (by decide)
+    (by simpa [exArgs] using ex_assembles) (by right; decide)
 
 end BB.Props.C17
